@@ -8,7 +8,7 @@
 (*  (b) import statements: path shapes x import forms x placements.                 *)
 (* Most of these programs are ill-formed on purpose; the property only asks for    *)
 (* "success or diagnostics, never a crash".  A case is the source text.            *)
-EXTENDS Sequences, TLC, Json
+EXTENDS Integers, Sequences, TLC, Json
 
 Exprs == {
   "xs[-1]", "xs[0 - 1]", "xs[-B5]", "xs[1.5]", "xs[1f]", "xs[99]", "xs[2147483648]", "xs[0b1]", "xs[true]", "xs[nil]", "xs[\"a\"]", "xs[k][0]",
@@ -20,13 +20,24 @@ Exprs == {
   "[1, \"a\"]", "[]", "[[]]", "[1, [2]]", "map[int, str]", "map[int, str] {1: 2}", "map[str, int] {\"a\": 1, \"a\": 2}", "fn() { return 1 }", "fn() -> int { }",
   "fn(a: int, a: int) { }", "1 is nil", "xs is ys", "f == f", "xs == 1", "\"a\" * -1", "\"a\" * 2147483647", "\"a\" + nil", "1 + \"a\" + 2", "k += 1", "k = 5" }
 
+(* scaling shapes: long flat chains and deep nestings (the front end must stay polynomial and must not overflow its stack) *)
+RECURSIVE Rep(_, _)
+Rep(str, n) == IF n = 0 THEN "" ELSE str \o Rep(str, n - 1)
+Scaling == {
+  "bt" \o Rep(" && bt", 30), "bt" \o Rep(" || bf", 30), "bt" \o Rep(" && bt || bf", 12), "bt" \o Rep(" ^ bf", 24),
+  "1" \o Rep(" + 1", 60), "k" \o Rep(" * 1", 40), "\"a\"" \o Rep(" + \"b\"", 40), "1" \o Rep(" < 2 && 1", 14) \o " < 2",
+  Rep("(", 40) \o "k" \o Rep(")", 40), Rep("f(", 30) \o "1" \o Rep(")", 30), Rep("[", 20) \o "1" \o Rep("]", 20), Rep("-", 1) \o Rep("(-", 20) \o "k" \o Rep(")", 20),
+  Rep("!", 1) \o Rep("(!", 20) \o "bt" \o Rep(")", 20), "xs" \o Rep("[0]", 1) \o Rep(" + xs[0]", 30), "(io) or " \o Rep("(io) or ", 20) \o "1",
+  "dm", "-dm", "dm + 1", "!dm", "dm * dm", "f(-dm)", "f(dm)", "dm == 5", "xs[dm]" }
+
 Contexts == {"stmt", "print", "decl", "typed_decl", "arg", "arg2", "method_arg", "ctor_arg", "push_arg", "list_elem", "index", "cond", "while_cond",
              "bound", "step", "ret", "operand_l", "operand_r", "assert", "reassign", "field_assign", "index_assign", "map_value", "in_fn", "in_method", "or_fallback"}
 
 Prologue == <<"class Box {", "	v: int", "	constructor(self) {", "		self.v = 1", "	}", "	fn val(self) -> int {", "		return self.v", "	}",
               "	fn add(self, n: int) -> int {", "		return self.v + n", "	}", "}", "class Pt {", "	q: int", "	constructor(self, q: int) {", "		self.q = q", "	}", "}",
               "xs: [int...] = [1, 2]", "const ys = [1, 2]", "mm = map[str, int] {\"a\": 1}", "k = 0", "o = Box()", "io: int? = nil",
-              "f = fn(a: int) -> int { return a }", "g = fn(a: int, b: int) -> int { return a + b }">>
+              "f = fn(a: int) -> int { return a }", "g = fn(a: int, b: int) -> int { return a + b }", "bt = true", "bf = false",
+              "type Meters int", "dm: Meters = 5">>
 
 In(ctx, e) ==
     CASE ctx = "stmt" -> <<e>>
@@ -75,7 +86,7 @@ Placed(pl, line) ==
       [] pl = "after_use" -> <<"print 1", line, "print 2">>
 
 VARIABLE c
-Init == c \in [kind : {"expr"}, e : Exprs, ctx : Contexts] \cup [kind : {"import"}, form : Forms, path : Paths, place : Places]
+Init == c \in [kind : {"expr"}, e : Exprs \cup Scaling, ctx : Contexts] \cup [kind : {"import"}, form : Forms, path : Paths, place : Places]
 Next == UNCHANGED c
 
 Lines == IF c.kind = "expr" THEN Prologue \o In(c.ctx, c.e) ELSE Placed(c.place, ImportLine(c.form, c.path))
